@@ -352,23 +352,53 @@ func (n *simNode) drainChannels() bool {
 	lh := n.f.lightHouse
 	hm := n.f.handshakeManager
 	p := n.f.lightHouse.punchy
+	// NOTE: one non-blocking receive per channel, in a fixed order. A single
+	// select over several ready channels picks pseudo-randomly and would break replay.
 	for {
+		progressed := false
 		select {
 		case a := <-lh.queryChan:
 			lh.innerQueryServer(a, make([]byte, 12), make([]byte, mtu))
 			n.w.rc.Count("ev.lh_query", 1)
-			did = true
+			progressed = true
+		default:
+		}
+		select {
 		case a := <-hm.trigger:
 			hm.handleOutbound(a, true)
 			n.w.rc.Count("ev.hs_trigger", 1)
-			did = true
+			progressed = true
+		default:
+		}
+		select {
 		case <-lh.updateTrigger:
 			if n.lhUpdate {
 				lh.SendUpdate()
 				n.w.rc.Count("ev.lh_update_triggered", 1)
 			}
-			did = true
-		case job := <-p.sched.queue:
+			progressed = true
+		default:
+		}
+		// Punch jobs whose AfterFunc timers expired at the same instant were queued by
+		// separate timer goroutines in scheduler order: take all that are there and
+		// process them in a canonical order so that the run does not depend on it.
+		var jobs []holepunchJob
+	drainPunch:
+		for {
+			select {
+			case job := <-p.sched.queue:
+				jobs = append(jobs, job)
+			default:
+				break drainPunch
+			}
+		}
+		sort.SliceStable(jobs, func(i, j int) bool {
+			if c := jobs[i].vpnAddr.Compare(jobs[j].vpnAddr); c != 0 {
+				return c < 0
+			}
+			return jobs[i].target.Compare(jobs[j].target) < 0
+		})
+		for _, job := range jobs {
 			// body of the worker in Punchy.Start
 			switch {
 			case job.target.IsValid():
@@ -379,10 +409,12 @@ func (n *simNode) drainChannels() bool {
 				p.ifce.SendMessageToVpnAddr(header.Test, header.TestRequest, job.vpnAddr, []byte(""), make([]byte, 12), make([]byte, mtu))
 				n.w.rc.Count("ev.punch_respond", 1)
 			}
-			did = true
-		default:
+			progressed = true
+		}
+		if !progressed {
 			return did
 		}
+		did = true
 	}
 }
 
@@ -454,6 +486,7 @@ type simWorld struct {
 	quiet  bool // faults off (quiet suffix)
 	// partition[i][j] true: datagrams i->j are dropped
 	partition map[[2]int]bool
+	blocked   map[[2]int]bool // topology: no direct underlay path i->j (applies in the quiet suffix too)
 	pending   map[int][]*simDatagram // delivered-at-now datagrams per node awaiting a batch flush
 	withDNS   bool
 	steps     int
@@ -471,7 +504,7 @@ type simWorld struct {
 }
 
 func newSimWorld(rc *sk.RunCtx) *simWorld {
-	return &simWorld{rc: rc, tp: rc.Tape, t0: time.Now(), partition: map[[2]int]bool{}, pending: map[int][]*simDatagram{}, maxSteps: 20000}
+	return &simWorld{rc: rc, tp: rc.Tape, t0: time.Now(), partition: map[[2]int]bool{}, blocked: map[[2]int]bool{}, pending: map[int][]*simDatagram{}, maxSteps: 20000}
 }
 
 func (w *simWorld) at(d time.Duration, name string, run func()) {
@@ -627,6 +660,14 @@ func (w *simWorld) nodeIndexByUDP(a netip.AddrPort) int {
 // its delivery (or deliveries).
 func (w *simWorld) transmit(from *simNode, d *simDatagram) {
 	w.rc.Bytes(d.data)
+	if sk.Verbose() {
+		var h header.H
+		if err := h.Parse(d.data); err == nil {
+			w.rc.Logf("t=%v wire n%d %v->%v %s/%d idx=%d ctr=%d len=%d", w.now, d.src, d.from, d.to, h.TypeName(), h.Subtype, h.RemoteIndex, h.MessageCounter, len(d.data))
+		} else {
+			w.rc.Logf("t=%v wire n%d %v->%v short len=%d", w.now, d.src, d.from, d.to, len(d.data))
+		}
+	}
 	if w.onWire != nil && from != nil {
 		w.onWire(from, d)
 	}
@@ -682,6 +723,10 @@ func (w *simWorld) deliver(d *simDatagram) {
 	to := w.nodeByUDP(d.to)
 	if to == nil {
 		w.rc.Count("net.unroutable", 1)
+		return
+	}
+	if d.src >= 0 && w.blocked[[2]int{d.src, to.idx}] {
+		w.rc.Count("net.no_direct_path", 1)
 		return
 	}
 	if d.src >= 0 && !w.quiet && w.partition[[2]int{d.src, to.idx}] {
